@@ -105,13 +105,20 @@ ColumnsValue(t) == CASE t \in {"auto", "auto auto"} -> <<"auto", "auto">> [] t \
 ListScn == {[parts |-> q] : q \in UNION {Perms(S) : S \in (SUBSET {"type", "position", "image"}) \ {{}}}}
 \* flex-flow: direction and wrap in any order
 FlowScn == {[parts |-> q] : q \in UNION {Perms(S) : S \in (SUBSET {"direction", "wrap"}) \ {{}}}}
-ShortScn == {[kind |-> "trbl", s |-> x] : x \in TrblScn} \cup {[kind |-> "columns", s |-> [t |-> x]] : x \in ColumnsScn}
+\* background: comma-separated layers, each with an image, a position and (after "/") a size; the longhands are the lists
+\* of the layers' values IN THE ORDER OF THE LAYERS (CSS Backgrounds 3, 3.10); an omitted part takes its initial value
+BgSizes == {"", "10px 20px", "cover", "30%"}
+BgPositions == {"", "1px 2px", "right bottom"}
+BgLayer == {[img |-> i, pos |-> p, size |-> z] : i \in {"a", "b"}, p \in BgPositions, z \in BgSizes} \ {[img |-> i, pos |-> "", size |-> z] : i \in {"a", "b"}, z \in BgSizes \ {""}}
+BgScn == {<<x>> : x \in BgLayer} \cup {<<x, y>> : x \in BgLayer, y \in BgLayer}
+ShortScn == {[kind |-> "background", s |-> [layers |-> x]] : x \in BgScn} \cup {[kind |-> "trbl", s |-> x] : x \in TrblScn} \cup {[kind |-> "columns", s |-> [t |-> x]] : x \in ColumnsScn}
             \cup {[kind |-> "list-style", s |-> x] : x \in ListScn} \cup {[kind |-> "flex-flow", s |-> x] : x \in FlowScn} \cup {[kind |-> "border", s |-> x] : x \in BorderScn}
             \cup {[kind |-> "flex", s |-> [t |-> x]] : x \in FlexScn}
 
 ---------------------------------------------------------------------------
 (* spellings: (declaration family, variant) ; every variant means what the canonical spelling means *)
-SpellDecls == {"length", "keyword", "color-fn", "url", "shorthand", "important", "string", "multi", "fr", "angle", "resolution", "em"}
+SpellDecls == {"length", "keyword", "color-fn", "url", "shorthand", "important", "string", "multi", "fr", "angle", "resolution", "em",
+               "gradient-fn", "radial-fn", "counter-fn", "attr-fn", "steps-fn"}
 SpellVariants == {"canonical", "upper-name", "upper-keyword", "upper-unit", "upper-function", "comment-between", "extra-space",
                   "comment-before-colon", "newline-tab", "upper-important"}
 \* ASCII case-insensitivity does not extend to non-ASCII look-alikes: with U+212A KELVIN SIGN for k or U+0130 for i
